@@ -191,9 +191,16 @@ func (pl *Pool) abandon(kind string) {
 
 // runOne sends the script to one backend.
 func (pl *Pool) runOne(kind string, q *Query, timeoutMs int) (Result, *proc) {
+	return pl.runOneC(kind, q, timeoutMs, nil)
+}
+
+func (pl *Pool) runOneC(kind string, q *Query, timeoutMs int, cancel *int32) (Result, *proc) {
 	p, err := pl.get(kind)
 	if err != nil {
 		return Unknown, nil
+	}
+	if cancel != nil && atomic.LoadInt32(cancel) != 0 {
+		return Unknown, p
 	}
 	script := q.Def
 	if kind == "z3" {
@@ -202,7 +209,7 @@ func (pl *Pool) runOne(kind string, q *Query, timeoutMs int) (Result, *proc) {
 	start := time.Now()
 	defer func() {
 		stats.add(kind, time.Since(start))
-		if debugSolver && time.Since(start) > 2*time.Second {
+		if debugSolver && (time.Since(start) > 2*time.Second || os.Getenv("VERIF_ALLQ") != "") {
 			fmt.Printf("SLOW-QUERY %s %.1fs script=%dB\n", kind, time.Since(start).Seconds(), len(script))
 			if os.Getenv("VERIF_DUMP_SLOW") != "" {
 				dumpN++
@@ -275,10 +282,11 @@ func (pl *Pool) race(kinds []string, q *Query, ms int) Result {
 		kind string
 	}
 	ch := make(chan ans, len(kinds))
+	cancel := new(int32)
 	for _, k := range kinds {
 		k := k
 		go func() {
-			r, p := pl.runOne(k, q, ms)
+			r, p := pl.runOneC(k, q, ms, cancel)
 			ch <- ans{r, p, k}
 		}()
 	}
@@ -298,6 +306,7 @@ func (pl *Pool) race(kinds []string, q *Query, ms int) Result {
 				pl.session = a.p
 			}
 			// abandon the losers: kill their processes (restarted lazily)
+			atomic.StoreInt32(cancel, 1)
 			for k := range pending {
 				pl.abandon(k)
 			}
